@@ -12,6 +12,21 @@ CHECKS = {
  "C13": dict(cat="exploration", ref="DESIGN.md 4/C13", tech="property-based differential testing of every emitted residual against a brute-force Rice optimiser",
    text="For every FIXED/LPC residual of generated streams the coded size computed from the emitted parameters and values must equal the minimum found by brute force over the encoder's documented search space (orders 0..finest, parameters 0..max_parameter) whenever that minimum is below 2^28.",
    note="Search space model (partitions >= max(64, order), block divisibility) taken from the property statement; ties on cost are accepted, parameters are not compared."),
+ "C02": dict(cat="exploration", ref="DESIGN.md 4/C02", tech="property-based testing with a strict RFC 9639 validity predicate on generated streams, plus exhaustive enumeration of the finite header code spaces",
+   text="(a) generated streams are read by the harness' strict RFC 9639 reader, which must report zero rule violations (marker, metadata flags, sync, reserved codes, agreement with STREAMINFO, canonical UTF-8 frame numbers 0,1,2.., CRC-8/CRC-16, padding, subframe limits, partition rules, 32-bit residuals, block sizes, no trailing bytes); (b) the finite header code spaces are enumerated completely through the encoder entry point: every block length 1..=32767 and every sample rate 1..=96000 in both tiers, every frame number 0..2^31-1 in the thorough tier (boundary neighbourhoods plus a 2^20-stratum sample in the quick tier), each parsed back strictly and compared with the requested value.",
+   note="Trusts the harness' strict reader (cross-checked with claxon under C01). STREAMINFO block-size bounds are judged under C04."),
+ "C03": dict(cat="exploration", ref="DESIGN.md 4/C03", tech="property-based differential testing against an independent MD5/serialisation oracle across source kinds, modes and owned schedules",
+   text="Each generated (config, input) is encoded eight ways ({single, multi} x {MemSource, integer fill, byte fill}, frame-level x {integer, byte}); STREAMINFO parsed by the reference reader must state the source's format, the number of samples consumed and the MD5 computed by the harness' own RFC 1321 implementation over its own serialisation; the 42 bytes must be identical across variants. A second part runs multi-thread mode under the schedule-owning scheduler with generated schedules of the hashing thread.",
+   note="Source contract assumed: full blocks except the last, one fill call per read. Scheduler explores hook-point interleavings only."),
+ "C04": dict(cat="exploration", ref="DESIGN.md 4/C04", tech="property-based testing plus exhaustive enumeration of length residues, oracle from an independent decoder's frame trace",
+   text="Complete enumeration of len = k*B + r for B in {32,192}, all r, k in 0..=2, both stream-level entry points; generated (config, input, entry point) cases with tiny final blocks forced; oracle from the reference decoder's trace (max block = requested, 16 <= min block <= every non-final frame, min/max frame size exact) and claxon accepting the stream.",
+   note="For frame-level assembly the caller finalises STREAMINFO, so block-size bounds are judged on the stream-level entry points and frame-size bounds on all three."),
+ "C05": dict(cat="exploration", ref="DESIGN.md 3.6, 4/C05", tech="property-based differential testing (single vs multi vs frame-level vs repeat) over generated schedules executed by a schedule-owning deterministic scheduler",
+   text="Multi-thread encoding runs in executor processes under a cooperative scheduler installed through the cfg(flacenc_verif) hook: the schedule (uniform random walk or PCT priorities, generated choice string) is part of the generated case and replays deterministically; dead-lock is detected exactly (no enabled thread). Oracle: bytes equal single-thread, frame-by-frame assembly and a second schedule; no panic; no thread alive at return; every FLACENC_WORKERS value class terminates.",
+   note="Only hook points are scheduling points (par.rs shares state only through the hooked channels/mutexes/joins); interleavings inside crossbeam/std and weak-memory effects are not explored; schedule space is sampled, not exhausted."),
+ "C06": dict(cat="fault_enumeration", ref="DESIGN.md 3.6, 4/C06", tech="fault-position enumeration and property-based fault-set generation under a schedule-owning deterministic scheduler, differential against single-thread mode",
+   text="Every fault position k in 0..=frames x {read error, out-of-range sample} for 1..=8-frame inputs x workers 1..=4 x 8 schedules (16 frames / 6 workers / 48 schedules in thorough), plus generated fault sets, worker counts and schedules with fault-free controls; oracle under the scheduler: the call returns (exact dead-lock detection), result kind equals single-thread mode on the same faulty source, no thread panicked, no thread alive at return, fault-free runs give every frame exactly once and identical bytes.",
+   note="Termination is decided exactly for the generated schedules at hook-point granularity; a watchdog kill is reported as inconclusive, never as a violation."),
 }
 
 NOT_YET = {}
